@@ -211,6 +211,11 @@ func (m *BlockManager) processRequest(ctx context.Context, request *downloadRequ
 	for {
 		select {
 		case <-time.After(m.blockRequestDelay): // most blocks finish within 5 seconds
+			downloaders := m.Downloaders(request.hash)
+
+			// Check for completion after listing the active downloads. A finishing download marks
+			// the block complete before it is removed from the list, so when it is already missing
+			// from the list above the block is seen as complete here.
 			m.currentLock.Lock()
 			isComplete := m.currentIsComplete
 			m.currentLock.Unlock()
@@ -220,7 +225,6 @@ func (m *BlockManager) processRequest(ctx context.Context, request *downloadRequ
 				continue
 			}
 
-			downloaders := m.Downloaders(request.hash)
 			logger.VerboseWithFields(ctx, []logger.Field{
 				logger.Stringers("active_downloads", downloaders),
 			}, "Active block downloads")
